@@ -21,6 +21,10 @@ pub enum ScChunk {
     Raw(u8),
     /// status / protocol bytes
     Status(u8),
+    /// typematic repeat: the make code of one key sent n times, then its break code
+    Typematic { ti: u16, n: u8 },
+    /// a burst of n identical undefined sequences (line noise / unsupported key held down)
+    ErrorBurst { pfx: u8, ci: u16, n: u8 },
 }
 
 const PREFIXY: &[&[u8]] = &[
@@ -93,6 +97,22 @@ pub fn sc_chunk_bytes(set2: bool, c: &ScChunk) -> Vec<u8> {
             v
         }
         ScChunk::Prefixy(i) => PREFIXY[(*i as usize) % PREFIXY.len()].to_vec(),
+        ScChunk::Typematic { ti, n } => {
+            let mut v = Vec::new();
+            for _ in 0..(2 + *n as usize % 40) {
+                v.extend(sc_chunk_bytes(set2, &ScChunk::Key { ti: *ti, up: false }));
+            }
+            v.extend(sc_chunk_bytes(set2, &ScChunk::Key { ti: *ti, up: true }));
+            v
+        }
+        ScChunk::ErrorBurst { pfx, ci, n } => {
+            let one = sc_chunk_bytes(set2, &ScChunk::Undefined { pfx: *pfx, up: false, ci: *ci });
+            let mut v = Vec::new();
+            for _ in 0..(2 + *n as usize % 20) {
+                v.extend(one.iter().copied());
+            }
+            v
+        }
         ScChunk::Raw(b) => vec![*b],
         ScChunk::Status(i) => vec![STATUS[(*i as usize) % STATUS.len()]],
     }
@@ -100,8 +120,10 @@ pub fn sc_chunk_bytes(set2: bool, c: &ScChunk) -> Vec<u8> {
 
 pub fn sc_chunk() -> impl Strategy<Value = ScChunk> {
     prop_oneof![
-        45 => (any::<u16>(), any::<bool>()).prop_map(|(ti, up)| ScChunk::Key { ti, up }),
-        15 => (0u8..3, any::<bool>(), any::<u16>()).prop_map(|(pfx, up, ci)| ScChunk::Undefined { pfx, up, ci }),
+        41 => (any::<u16>(), any::<bool>()).prop_map(|(ti, up)| ScChunk::Key { ti, up }),
+        13 => (0u8..3, any::<bool>(), any::<u16>()).prop_map(|(pfx, up, ci)| ScChunk::Undefined { pfx, up, ci }),
+        4 => (any::<u16>(), any::<u8>()).prop_map(|(ti, n)| ScChunk::Typematic { ti, n }),
+        2 => (0u8..3, any::<u16>(), any::<u8>()).prop_map(|(pfx, ci, n)| ScChunk::ErrorBurst { pfx, ci, n }),
         15 => (0u8..PREFIXY.len() as u8).prop_map(ScChunk::Prefixy),
         20 => any::<u8>().prop_map(ScChunk::Raw),
         5 => (0u8..STATUS.len() as u8).prop_map(ScChunk::Status),
@@ -145,6 +167,8 @@ pub enum BitChunk {
     PartialClear { n: u8, bits: u16 },
     ClearBoundary,
     RandBits { n: u8, bits: u32 },
+    /// n identical corrupted frames in a row (a noisy line), then the clean frame
+    RejectBurst { b: u8, f1: u8, n: u8 },
 }
 
 pub fn bit_chunk_ops(c: &BitChunk) -> Vec<BitOp> {
@@ -167,6 +191,15 @@ pub fn bit_chunk_ops(c: &BitChunk) -> Vec<BitOp> {
             v
         }
         BitChunk::ClearBoundary => vec![BitOp::Clear],
+        BitChunk::RejectBurst { b, f1, n } => {
+            let bad = frame::encode(*b) ^ (1 << (*f1 % 11));
+            let mut v = Vec::new();
+            for _ in 0..(2 + *n as usize % 12) {
+                v.extend(word(bad, 11));
+            }
+            v.extend(word(frame::encode(*b), 11));
+            v
+        }
         BitChunk::RandBits { n, bits } => {
             let n = 1 + (*n as usize % 30);
             (0..n).map(|i| BitOp::Bit((bits >> i) & 1 != 0)).collect()
@@ -182,6 +215,7 @@ pub fn bit_chunk() -> impl Strategy<Value = BitChunk> {
         15 => (0u8..10, 0u16..0x400).prop_map(|(n, bits)| BitChunk::PartialClear { n, bits }),
         5 => Just(BitChunk::ClearBoundary),
         5 => (0u8..30, any::<u32>()).prop_map(|(n, bits)| BitChunk::RandBits { n, bits }),
+        4 => (any::<u8>(), 0u8..11, any::<u8>()).prop_map(|(b, f1, n)| BitChunk::RejectBurst { b, f1, n }),
     ]
 }
 
@@ -201,6 +235,10 @@ pub enum EvOp {
     Pause,
     SetMode(bool),
     ChangeLayout(u8),
+    /// key held down: n repeated Down events, then Up
+    Held { ki: u16, n: u8 },
+    /// a modifier key held down with typematic repeat (n Down events), optionally released
+    ModHeld { mi: u8, n: u8, release: bool },
 }
 
 pub const MOD_KEYS: [KeyCode; 9] = [
@@ -233,6 +271,20 @@ pub fn ev_op_flat(op: &EvOp) -> Vec<FlatEv> {
             FlatEv::Key(KeyCode::RControl2, KeyState::Up),
             FlatEv::Key(KeyCode::NumpadLock, KeyState::Up),
         ],
+        EvOp::Held { ki, n } => {
+            let k = ALL_KEYS[idx(*ki, ALL_KEYS.len())];
+            let mut v = vec![FlatEv::Key(k, KeyState::Down); 2 + (*n as usize % 30)];
+            v.push(FlatEv::Key(k, KeyState::Up));
+            v
+        }
+        EvOp::ModHeld { mi, n, release } => {
+            let k = MOD_KEYS[(*mi as usize) % 9];
+            let mut v = vec![FlatEv::Key(k, KeyState::Down); 2 + (*n as usize % 12)];
+            if *release {
+                v.push(FlatEv::Key(k, KeyState::Up));
+            }
+            v
+        }
         EvOp::SetMode(m) => vec![FlatEv::SetMode(if *m {
             HandleControl::MapLettersToUnicode
         } else {
@@ -248,6 +300,8 @@ pub fn ev_op(n_layouts: u8) -> impl Strategy<Value = EvOp> {
         // Down/Up weighted over SingleShot for modifier keys
         42 => (0u8..9, prop_oneof![3 => Just(0u8), 3 => Just(1u8), 1 => Just(2u8)]).prop_map(|(mi, st)| EvOp::ModEv { mi, st }),
         6 => Just(EvOp::Pause),
+        4 => (any::<u16>(), any::<u8>()).prop_map(|(ki, n)| EvOp::Held { ki, n }),
+        4 => (0u8..9, any::<u8>(), any::<bool>()).prop_map(|(mi, n, release)| EvOp::ModHeld { mi, n, release }),
         6 => any::<bool>().prop_map(EvOp::SetMode),
         6 => (0u8..n_layouts).prop_map(EvOp::ChangeLayout),
     ]
